@@ -62,6 +62,13 @@ theorem shr_nat (a n : Nat) : shr (a : Int) (n : Int) = ((a >>> n : Nat) : Int) 
 theorem shl_nat (w a n : Nat) : shl w (a : Int) (n : Int) = (((a <<< n) % 2 ^ w : Nat) : Int) := by
   simp [shl]
 
+/-- C++ `%` / `/` on non-negative operands are the natural-number operations -/
+theorem tmod_nat (a b : Nat) : Int.tmod (a : Int) (b : Int) = ((a % b : Nat) : Int) := by
+  rw [Int.tmod_eq_emod_of_nonneg (Int.natCast_nonneg a)]; simp
+
+theorem tdiv_nat (a b : Nat) : Int.tdiv (a : Int) (b : Int) = ((a / b : Nat) : Int) := by
+  rw [Int.tdiv_eq_ediv_of_nonneg (Int.natCast_nonneg a)]; simp
+
 /-- `m & (2^w - 2^k)` clears the low `k` bits of a `w`-bit value -/
 theorem and_himask (m k w : Nat) (h : m < 2 ^ w) (hk : k ≤ w) :
     m &&& ((2 ^ (w - k) - 1) * 2 ^ k) = m / 2 ^ k * 2 ^ k := by
@@ -88,5 +95,11 @@ theorem and_not7 (m : Nat) (h : m < 2 ^ 64) : m &&& 18446744073709551608 = m / 8
 
 @[simp] theorem minmax_second (a b : Int) : (minmax a b).second = max a b := by
   unfold minmax; split <;> simp <;> omega
+
+/-- closes `Outcome.normal s r = Outcome.normal s' r'` (after the translated definition was unfolded) when the
+    components are equal up to linear arithmetic — so that a tie does not depend on the order of operands in the
+    source expression -/
+macro "outcome_eq" : tactic =>
+  `(tactic| first | rfl | (congr 1 <;> first | rfl | omega | (congr 1 <;> first | rfl | omega)))
 
 end Osmium.CxxSem
